@@ -342,6 +342,12 @@ func selftest() int {
 			bad++
 		}
 	}
+	for _, f := range c08Hemmed {
+		if b, err := rc.ParseFEN(f); err != nil || b.Validate() != nil || len(b.Legal()) != 0 {
+			fmt.Fprintln(realStdout, "selftest: hemmed-in position must be legal and without legal moves:", f)
+			bad++
+		}
+	}
 	if b, err := rc.ParseFEN(lcSingleMoveRoot); err != nil || b.Validate() != nil || len(b.Legal()) != 1 {
 		fmt.Fprintln(realStdout, "selftest: lcSingleMoveRoot must have exactly one legal move")
 		bad++
